@@ -185,8 +185,17 @@ def realise(spec):
                 for s in subs[2:]:
                     acc = acc + s
                 return acc
+            if style == "kw" and members and all(n for n, _ in members) and len({n for n, _ in members}) == len(members) \
+                    and not any(s[0] == "docs" and len(s) > 3 and s[3] == "outer" for _, s in members):
+                return C.Struct(**{name: R(s) for name, s in members})      # keyword spelling (order is the order given)
             return C.Struct(*subs)
         if k == "seq":
+            style = spec[2] if len(spec) > 2 else "ctor"
+            if style == "rshift" and len(subs) >= 2 and all(not isinstance(s, C.Sequence) for s in subs):
+                acc = subs[0] >> subs[1]
+                for s in subs[2:]:
+                    acc = acc >> s
+                return acc
             return C.Sequence(*subs)
         if k == "bitstruct":
             return C.BitStruct(*subs)
@@ -227,7 +236,7 @@ def realise(spec):
     if k == "rebuild":
         return C.Rebuild(R(spec[1]), param(spec[2]))
     if k == "default":
-        return C.Default(R(spec[1]), spec[2])
+        return C.Default(R(spec[1]), param(spec[2]))
     if k == "prefixed":
         if spec[3]:
             return C.Prefixed(R(spec[1]), R(spec[2]), includelength=True)
@@ -471,15 +480,19 @@ def exprs_in(spec):
     yield from rec(spec, 0)
 
 
-def _expr_params(s):
+def expr_param_indices(s):
     k = s[0]
     if k in ("bytes", "pstr", "computed", "check", "stopif", "padding", "array", "runtil", "if", "ite", "switch", "fixedsized",
              "padded", "aligned", "xor", "pointer", "lazyarray", "offsettedend", "bits"):
-        return [s[1]]
-    if k == "rebuild":
-        return [s[2]]
+        return [1]
+    if k in ("rebuild", "default"):
+        return [2]
     if k == "rol":
-        return [s[1], s[2]]
+        return [1, 2]
     if k == "bint":
-        return [s[1], s[3]]
+        return [1, 3]
     return []
+
+
+def _expr_params(s):
+    return [s[i] for i in expr_param_indices(s)]
